@@ -31,7 +31,14 @@ func exampleTexts(ctx *Ctx) (names []string, texts []string) {
 
 // mixedSpec draws a grammar from all families (for output-level checks).
 func mixedSpec(ctx *Ctx, r *rng.R) *wl.Spec {
-	switch r.Intn(6) {
+	switch r.Intn(7) {
+	case 6:
+		if r.Chance(1, 3) {
+			s := wl.BigCFG(r.Sub("big"))
+			wl.DecorateInt(s, r.Sub("d"))
+			return s
+		}
+		return wideSpec(r.Sub("wide"))
 	case 0:
 		cl := wl.Classics()
 		s := wl.VaryClassic(cl[r.Intn(len(cl))], r.Sub("v"))
